@@ -206,3 +206,46 @@ Definition search_model (dis : list kname) (choice : nat) (uidcmd : bool)
 (* one key on one message: of() then matches() *)
 Definition model_matches (k : skey) (m : msg) (v : view) : result bool :=
   bind (crit_of [] (params_of v) k) (fun c => Ok (matches c m)).
+
+(* ---- what a search needs to load: SearchKey.requirement, a FetchRequirement
+   flag set (METADATA = 1, HEADER = 2, BODY = 4, CONTENT = 6), reduced with |
+   over the keys of the command by search_mailbox.  The dict backend ignores
+   it; the maildir backend's load_content returns no content at all when
+   neither HEADER nor BODY is asked for, and then get_header is [], get_size is
+   0, the envelope is empty and contains() is False ([strip]). *)
+Definition REQ_NONE : N := 0.  Definition REQ_METADATA : N := 1.
+Definition REQ_HEADER : N := 2.  Definition REQ_CONTENT : N := 6.
+
+Definition atom_requirement (n : kname) : N :=
+  match n with
+  | NALL => REQ_NONE
+  | NSENTBEFORE | NSENTON | NSENTSINCE | NBCC | NCC | NFROM | NSUBJECT | NTO | NHEADER => REQ_HEADER
+  | NBODY | NTEXT | NLARGER | NSMALLER => REQ_CONTENT
+  | _ => REQ_METADATA      (* incl. the ill-typed NKEYSET/NOR atoms, which raise TypeError in of() *)
+  end.
+
+Fixpoint requirement (k : skey) : N :=
+  match k with
+  | SKAtom n _ _ => atom_requirement n
+  | SKSet l _ => fold_right (fun x acc => N.lor (requirement x) acc) REQ_NONE l
+  | SKOr a b _ => N.lor (requirement a) (requirement b)
+  end.
+
+Definition requirement_of (prog : list skey) : N :=
+  fold_right (fun x acc => N.lor (requirement x) acc) REQ_NONE prog.
+
+Definition content_loaded (always : bool) (req : N) : bool :=
+  always || negb (N.land req REQ_CONTENT =? 0)%N.
+
+Definition strip (m : msg) : msg :=
+  mkMsg (m_uid m) (m_seq m) (m_flags m) 0 (m_idate m) None [] [] (m_emailid m) (m_threadid m).
+
+(* search_mailbox on a backend that loads content always (dict) or only on
+   request (maildir) *)
+Definition search_backend (always : bool) (dis : list kname) (choice : nat) (uidcmd : bool)
+           (prog : list skey) (v : view) : result (list N) :=
+  let see := if content_loaded always (requirement_of prog) then (fun m => m) else strip in
+  bind (crits_of dis (params_of v) prog) (fun cs =>
+    Ok (map (if uidcmd then m_uid else m_seq)
+            (filter (fun m => forallb (fun c => matches c (see m)) cs)
+                    (find (sequence_set choice cs) v)))).
